@@ -8,7 +8,13 @@ script can be given to both and the answers diffed line by line:
 
   timer init <H> <tRecvMs> <tSendMs> | rinit <H> <code> <sub> <t> | sinit <H> <t>
   timer check <t> <kind> | recv <t> <kind> | need <t> | send <t> <netok> | poll <t> <kind> | state
+  timer out <t> <update|eor|refresh|operational>   ExaBGP itself writes, through the REAL Protocol.new_update_generator
+                                                   → Protocol.send / new_eor / new_refresh / new_operational of the Protocol the KA uses
+  timer estab-recv <local> <peer> <t> | estab-send <local> <peer> <t>   timers created from a Negotiated fed with two real OPENs
   timer keepalive <H> | kind <name> | openwait <waitS> <arrivalMs|never>
+
+`run_establishment` drives the real `Peer.run()` (through harness/sessionrig.py: socketpair, scripted
+remote, virtual time) and records every call the peer makes on its own ReceiveTimer / SendTimer.
 
 Reusable by the session rig (part b): `TimerRig().line('timer init 90 0 0')`, `…line('timer poll 30000 nop')`.
 """
@@ -89,8 +95,33 @@ def _session_objects() -> tuple[Any, Any, Any]:
         cfg, n = sessions.make_config()
         neg = sessions.negotiate(n)
         peer, proto = sessions.make_peer(n, neg)
-        _shared.update(n=n, neg=neg, peer=peer, proto=proto)
+        _shared.update(cfg=cfg, n=n, neg=neg, peer=peer, proto=proto, serial=0)
     return _shared['neg'], _shared['peer'], _shared['proto']
+
+
+def _open_with_hold(hold: int, peer_side: bool) -> Any:
+    """A real OPEN carrying `hold`; the peer's one goes through the wire (pack + unpack)."""
+    n = _shared['n']
+    if not peer_side:
+        saved = n.hold_time
+        n.hold_time = HoldTime(hold)
+        try:
+            return sessions.open_of(n)
+        finally:
+            n.hold_time = saved
+    if 'pn' not in _shared:
+        _, pn = sessions.make_config(local_as=65001, peer_as=65000, local_address='127.0.0.2', peer_address='127.0.0.1')
+        from exabgp.bgp.message.open.routerid import RouterID
+
+        pn.session.router_id = RouterID('2.2.2.2')
+        _shared['pn'] = pn
+    pn = _shared['pn']
+    from exabgp.bgp.message.direction import Direction
+    from exabgp.bgp.message.open.capability.negotiated import Negotiated
+
+    pn.hold_time = HoldTime(hold)
+    raw = sessions.open_of(pn).pack_message(Negotiated.make_negotiated(pn, Direction.OUT))
+    return Message.unpack(1, raw[19:], _shared['neg'])
 
 
 def kind_objects() -> dict[str, Any]:
@@ -142,6 +173,49 @@ class TimerRig:
         self.clock.ms = t
         self.neg.holdtime = HoldTime(hold)
         self.ka = KA(self.proto.connection.session, self.proto)
+
+    def _negotiate(self, local: int, peer: int) -> None:
+        """Feed the real Negotiated with our OPEN (hold `local`) and the peer's (hold `peer`): it computes
+        `holdtime` itself; the timers are then built from `proto.negotiated.holdtime` as the peer does."""
+        self.neg.sent(_open_with_hold(local, False))
+        self.neg.received(_open_with_hold(peer, True))
+
+    def _out(self, what: str) -> None:
+        """ExaBGP writes a message through the real send paths of the Protocol the KA object uses."""
+        from exabgp.protocol.family import AFI, SAFI
+
+        n, cfg = _shared['n'], _shared['cfg']
+        before = len(self.conn.writes)
+        if what == 'update':
+            _shared['serial'] += 1
+            k = _shared['serial']
+            r = cfg.parse_route_text(f'route 10.{k // 250 % 250}.{k % 250}.0/24 next-hop 192.0.2.1 med {k}')[0]
+            r = n.resolve_self(r)
+            n.rib.outgoing.add_to_rib(r, True)
+
+            async def drain() -> None:
+                async for _ in self.proto.new_update_generator(True):
+                    pass
+
+            self.loop.run_until_complete(drain())
+            want = 2
+        elif what == 'eor':
+            self.loop.run_until_complete(self.proto.new_eor(AFI.ipv4, SAFI.unicast))
+            want = 2
+        elif what == 'refresh':
+            self.loop.run_until_complete(self.proto.new_refresh(self.kinds['refresh']))
+            want = 5
+        elif what == 'operational':
+            from exabgp.bgp.message.operational import Advisory
+
+            adm = Advisory.ADM(AFI.ipv4, SAFI.unicast, 'rig')
+            self.loop.run_until_complete(self.proto.new_operational(adm, self.proto.negotiated))
+            want = 6
+        else:
+            raise KeyError(what)
+        new = self.conn.writes[before:]
+        if not new or any(raw[18] != want for _, raw in new):
+            raise RuntimeError(f'rig: out {what} wrote {[raw[18] for _, raw in new]}')
 
     def state(self) -> str:
         r, s = self.recv, self.ka.send_timer
@@ -210,6 +284,23 @@ class TimerRig:
                     self.closed = (self.clock.ms, e.code, e.subcode)
                     res = f'notify {e.code} {e.subcode}'
                 return res + ' ; ' + self.state()
+            if op == 'out' and len(a) == 2:
+                self.clock.ms = int(a[0])
+                self._out(a[1])
+                return 'idle ; ' + self.state()
+            if op == 'estab-recv' and len(a) == 3:
+                local, peer, t = map(int, a)
+                self._negotiate(local, peer)
+                self.clock.ms = t
+                self.recv = timer_mod.ReceiveTimer(self.proto.connection.session, self.proto.negotiated.holdtime, 4, 0)
+                self.closed = None
+                return 'ok ; ' + self.state()
+            if op == 'estab-send' and len(a) == 3:
+                local, peer, t = map(int, a)
+                self._negotiate(local, peer)
+                self.clock.ms = t
+                self.ka = KA(self.proto.connection.session, self.proto)
+                return 'ok ; ' + self.state()
             if op == 'state' and not a:
                 return self.state()
             if op == 'keepalive' and len(a) == 1:
@@ -262,3 +353,147 @@ def open_wait(wait_s: int, arrival_ms: int | None) -> str:
             del proto.__dict__['read_open']
         else:
             proto.read_open = saved_ro
+
+
+# ---------------------------------------------------------------------------------------------
+# establishment stream: the real Peer.run() under virtual time, observed at its own timers
+
+
+def _ms_of(t: float) -> int:
+    """Clock reading (float seconds) → integer ms such that ms // 1000 == int(t), i.e. the model is
+    given exactly the whole second the code saw (floats near a second boundary)."""
+    sec = int(t)
+    ms = int(round(t * 1000))
+    if ms // 1000 < sec:
+        ms = sec * 1000
+    elif ms // 1000 > sec:
+        ms = sec * 1000 + 999
+    return ms
+
+
+class TimerRecorder:
+    """Wraps (from outside) the methods of ReceiveTimer / SendTimer for the duration of a scenario and
+    records every call the peer makes on them, with the clock reading and the object's state after."""
+
+    def __init__(self) -> None:
+        self.records: list[dict] = []
+        self._saved: dict = {}
+        self._nested = 0
+        kinds = kind_objects()
+        self._names = {(m.TYPE[0], int(m.SCHEDULING)): name for name, m in kinds.items()}
+
+    def _now(self) -> int:
+        return _ms_of(timer_mod.time.time())
+
+    def _kind(self, m: Any) -> str:
+        return self._names.get((m.TYPE[0], int(m.SCHEDULING)), f'?{m.TYPE[0]}/{int(m.SCHEDULING)}')
+
+    @staticmethod
+    def _r(o: Any) -> str:
+        return '%d,%d,%d,%d,%d,%d' % (int(o.holdtime), o.code, o.subcode, o.last_read, o.last_print, int(o.single))
+
+    @staticmethod
+    def _s(o: Any) -> str:
+        return '%d,%d,%d' % (o.keepalive, o.last_print, o.last_sent)
+
+    def __enter__(self) -> 'TimerRecorder':
+        RT, ST = timer_mod.ReceiveTimer, timer_mod.SendTimer
+        self._saved = {(RT, n): getattr(RT, n) for n in ('__init__', 'check_ka_timer', 'check_ka')}
+        self._saved.update({(ST, n): getattr(ST, n) for n in ('__init__', 'need_ka')})
+        rec = self
+
+        def r_init(obj: Any, *a: Any, **k: Any) -> None:
+            t = rec._now()
+            rec._saved[(RT, '__init__')](obj, *a, **k)
+            rec.records.append({'op': 'rinit', 't': t, 'state': rec._r(obj)})
+
+        def call(obj: Any, name: str, op: str, message: Any) -> Any:
+            t = rec._now()
+            outer = rec._nested == 0
+            rec._nested += 1
+            try:
+                res = rec._saved[(RT, name)](obj, message)
+                out = 'ok' if name == 'check_ka' else ('true' if res else 'false')
+                return res
+            except Notify as e:
+                out = f'notify {e.code} {e.subcode}'
+                raise
+            finally:
+                rec._nested -= 1
+                if outer:
+                    rec.records.append({'op': op, 't': t, 'kind': rec._kind(message), 'res': out, 'state': rec._r(obj)})
+
+        def check_ka_timer(obj: Any, message: Any = _NOP) -> bool:
+            return call(obj, 'check_ka_timer', 'check', message)
+
+        def check_ka(obj: Any, message: Any = _NOP) -> None:
+            return call(obj, 'check_ka', 'recv', message)
+
+        def s_init(obj: Any, *a: Any, **k: Any) -> None:
+            t = rec._now()
+            rec._saved[(ST, '__init__')](obj, *a, **k)
+            rec.records.append({'op': 'sinit', 't': t, 'state': rec._s(obj)})
+
+        def need_ka(obj: Any) -> bool:
+            t = rec._now()
+            res = rec._saved[(ST, 'need_ka')](obj)
+            rec.records.append({'op': 'need', 't': t, 'res': 'true' if res else 'false', 'state': rec._s(obj)})
+            return res
+
+        RT.__init__, RT.check_ka_timer, RT.check_ka = r_init, check_ka_timer, check_ka  # type: ignore[method-assign]
+        ST.__init__, ST.need_ka = s_init, need_ka  # type: ignore[method-assign]
+        return self
+
+    def __exit__(self, *a: Any) -> None:
+        for (klass, name), f in self._saved.items():
+            setattr(klass, name, f)
+
+
+def run_establishment(local: int, peer: int, arrivals_ms: list[int], arrival_kind: str = 'keepalive', routes: int = 0, until_ms: int | None = None) -> dict:
+    """Real OPEN exchange (our hold time `local`, the peer's `peer`), real `_establish` and `_main` of a
+    real Peer over a socketpair under virtual time (harness/sessionrig.run_hold_scenario); the remote
+    writes `arrival_kind` at `arrivals_ms` after ESTABLISHED and is silent otherwise.
+    Returns the scenario result plus 'records' (calls on the peer's own timers) and 'until_ms'."""
+    from harness import sessionrig
+
+    sessionrig.install()
+    h = min(local, peer)
+    if until_ms is None:
+        last = max(arrivals_ms) if arrivals_ms else 0
+        until_ms = last + ((h + 5) * 1000 if h else (max(local, peer) + 8) * 1000)
+    with TimerRecorder() as rec:
+        res = sessionrig.run_hold_scenario(local, list(arrivals_ms), until_ms=until_ms, peer_hold=peer, routes=routes, arrival_kind=arrival_kind)
+    res['records'] = rec.records
+    res['until_ms'] = until_ms
+    return res
+
+
+def establishment_lines(local: int, peer: int, records: list[dict]) -> tuple[list[str], list[str]]:
+    """The recorded calls as a model script, and what the implementation answered, line for line
+    (`<result> <own timer state>`)."""
+    lines, impl = [], []
+    for r in records:
+        op = r['op']
+        if op == 'rinit':
+            lines.append(f'timer estab-recv {local} {peer} {r["t"]}')
+            impl.append('ok r=' + r['state'])
+        elif op == 'sinit':
+            lines.append(f'timer estab-send {local} {peer} {r["t"]}')
+            impl.append('ok s=' + r['state'])
+        elif op in ('check', 'recv'):
+            lines.append(f'timer {op} {r["t"]} {r["kind"]}')
+            impl.append(r['res'] + ' r=' + r['state'])
+        elif op == 'need':
+            lines.append(f'timer need {r["t"]}')
+            impl.append(r['res'] + ' s=' + r['state'])
+    return lines, impl
+
+
+def model_view(op_line: str, model_answer: str) -> str:
+    """Reduce a driver answer `<res> ; r=… s=… c=…` to the part the recorded call can be compared with."""
+    if ' ; ' not in model_answer:
+        return model_answer
+    res, st = model_answer.split(' ; ')
+    parts = dict(x.split('=', 1) for x in st.split(' '))
+    which = 's' if op_line.split()[1] in ('estab-send', 'need') else 'r'
+    return f'{res} {which}={parts[which]}'
